@@ -337,3 +337,107 @@ def ts_line_tracking(content, skip, j):
     use(tracked_lines, content.split("\n"), 1, skip, False, j)
     use(tracked_order, content.split("\n"), 1, skip, False, j)
     return tracking_property(content, skip, r, j)
+
+
+# ------------------------------------------------------------------ rolling hash with ORIGINAL line numbers
+def texts(lwn, w, i):
+    return "\n".join([code for _, code in lwn[i:i + w]])
+
+
+def twin(lwn, w, i):
+    """Window over tracked lines starting at index i: hash/snippet of the w texts, ORIGINAL line numbers of the first
+    and the last statement line of the window."""
+    return (hash(texts(lwn, w, i)), lwn[i:i + w][0][0], lwn[i:i + w][-1][0], texts(lwn, w, i))
+
+
+@opaque
+def twindows_from(lwn: SeqOf(NumLineT), w: Int, i: Int) -> SeqOf(WinT):
+    if i < 0 or i + w > len(lwn):
+        return []
+    return [twin(lwn, w, i)] + twindows_from(lwn, w, i + 1)
+
+
+@contract(PA + "_rolling_hash_with_tracking", props=["C03"],
+          types=dict(lines_with_numbers=SeqOf(NumLineT), window_size=Int, hashes=SeqOf(WinT), window=SeqOf(NumLineT),
+                     code_lines=SeqOf(Str), snippet=Str, hash_val=Int, start_line=Int, end_line=Int),
+          returns=SeqOf(WinT))
+class PyRollingHashWithTracking:
+    def requires(lines_with_numbers, window_size):
+        return window_size >= 1
+
+    def reveals(lines_with_numbers, window_size):
+        return reveal(twindows_from, lines_with_numbers, window_size, 0)
+
+    def value(lines_with_numbers, window_size):
+        return twindows_from(lines_with_numbers, window_size, 0)
+
+    def inv0(lines_with_numbers, window_size, hashes, i):
+        return reveal(twindows_from, lines_with_numbers, window_size, i) and \
+            twindows_from(lines_with_numbers, window_size, 0) == hashes + twindows_from(lines_with_numbers, window_size, i)
+
+
+@contract(TA + "_rolling_hash_with_tracking", props=["C03"],
+          types=dict(lines_with_numbers=SeqOf(NumLineT), window_size=Int, hashes=SeqOf(WinT), window=SeqOf(NumLineT),
+                     code_lines=SeqOf(Str), snippet=Str, hash_val=Int, start_line=Int, end_line=Int),
+          returns=SeqOf(WinT))
+class TsRollingHashWithTracking:
+    def requires(lines_with_numbers, window_size):
+        return window_size >= 1
+
+    def reveals(lines_with_numbers, window_size):
+        return reveal(twindows_from, lines_with_numbers, window_size, 0)
+
+    def value(lines_with_numbers, window_size):
+        return twindows_from(lines_with_numbers, window_size, 0)
+
+    def inv0(lines_with_numbers, window_size, hashes, i):
+        return reveal(twindows_from, lines_with_numbers, window_size, i) and \
+            twindows_from(lines_with_numbers, window_size, 0) == hashes + twindows_from(lines_with_numbers, window_size, i)
+
+
+@lemma(props=["C03"], types=dict(k=Int, lwn=SeqOf(NumLineT), w=Int, j=Int), name="tracked-windows-indexing")
+def twindows_indexing(k, lwn, w, j):
+    """Pure: k windows remain from start index len - w + 1 - k; the j-th of them is the window of index start + j."""
+    reveal(twindows_from, lwn, w, len(lwn) - w + 1 - k)
+    return (w < 1 or k <= 0 or len(lwn) - w + 1 - k < 0 or ih(twindows_indexing, k - 1, lwn, w, j - 1)) and \
+        implies(w >= 1 and k >= 0 and len(lwn) - w + 1 - k >= 0,
+                len(twindows_from(lwn, w, len(lwn) - w + 1 - k)) == k
+                and implies(0 <= j and j < k,
+                            twindows_from(lwn, w, len(lwn) - w + 1 - k)[j] == twin(lwn, w, len(lwn) - w + 1 - k + j)))
+
+
+@lemma(props=["C03"], types=dict(s=SeqOf(NumLineT), i=Int, w=Int), name="slice-ends")
+def slice_ends(s, i, w):
+    """Pure (Python slicing): the first / last element of s[i:i+w] are s[i] / s[i+w-1] when the slice is inside s."""
+    return implies(0 <= i and w >= 1 and i + w <= len(s), s[i:i + w][0] == s[i] and s[i:i + w][-1] == s[i + w - 1])
+
+
+def tracked_windows_property(lwn, w, r, j):
+    """max(0, n-w+1) windows; window j hashes the texts of statements j .. j+w-1 and reports the ORIGINAL line
+    numbers of statement j (start) and statement j+w-1 (end)."""
+    return len(r) == (len(lwn) - w + 1 if len(lwn) - w + 1 > 0 else 0) and \
+        implies(0 <= j and j < len(r),
+                r[j][0] == hash(texts(lwn, w, j)) and r[j][3] == texts(lwn, w, j)
+                and r[j][1] == lwn[j][0] and r[j][2] == lwn[j + w - 1][0])
+
+
+@lemma(props=["C03"], types=dict(lwn=SeqOf(NumLineT), w=Int, j=Int), name="py-windows-complete-with-original-lines")
+def py_windows_complete(lwn, w, j):
+    if w < 1:
+        return True
+    r = call(PA + "_rolling_hash_with_tracking", None, lwn, w)
+    reveal(twindows_from, lwn, w, 0)
+    use(twindows_indexing, len(lwn) - w + 1, lwn, w, j)
+    use(slice_ends, lwn, j, w)
+    return tracked_windows_property(lwn, w, r, j)
+
+
+@lemma(props=["C03"], types=dict(lwn=SeqOf(NumLineT), w=Int, j=Int), name="ts-windows-complete-with-original-lines")
+def ts_windows_complete(lwn, w, j):
+    if w < 1:
+        return True
+    r = call(TA + "_rolling_hash_with_tracking", None, lwn, w)
+    reveal(twindows_from, lwn, w, 0)
+    use(twindows_indexing, len(lwn) - w + 1, lwn, w, j)
+    use(slice_ends, lwn, j, w)
+    return tracked_windows_property(lwn, w, r, j)
